@@ -537,7 +537,8 @@ func c13gluable(s string) bool {
 	return false
 }
 
-var c13seps = []string{" ", " ", " ", " ", "  ", "\t", "\t ", "\n", "\n  ", " \n\t ", "\n\n", "\r\n", " \t"}
+// (a lone carriage return is white space that does NOT start a line - neither for the lexer nor for file.Source)
+var c13seps = []string{" ", " ", " ", " ", "  ", "\t", "\t ", "\n", "\n  ", " \n\t ", "\n\n", "\r\n", " \t", "\r", " \r ", "\r\r\n"}
 
 // lay the tokens out; returns the text and the rune position (line 1-based, column 0-based) of
 // the first rune of every token
@@ -1494,6 +1495,38 @@ func (c *c13ctx) nestedEvalFaults() {
 	}
 }
 
+// a failing membership test under a PREFIX negation (`not (x in y)`, `!(x in y)`): the error is located at the `in`, the
+// operation that fails, not at the negation - with the optimizer on and off
+func (c *c13ctx) negatedInFaults() {
+	for _, src := range []string{"not (I in AnyI)", "!(I in AnyI)", "B or\n  not (\n    I in AnyI)", "not (S in AnyI) and B", "\"ñ\" == S or !(Über in AnyI)", "not (I not in AnyI)",
+		"[1, not (I in AnyI)][1]", "not (I in AnyI) ? 1 : 2", "map(1..2, {not (# in AnyI)})"} {
+		idx := strings.Index(src, " in AnyI")
+		p := c13posAt(src, utf8.RuneCountInString(src[:idx+1]))
+		if j := strings.Index(src, "not in AnyI"); j >= 0 {
+			p = c13posAt(src, utf8.RuneCountInString(src[:j]))
+		}
+		for _, m := range []struct{ typed, opt bool }{{true, true}, {true, false}, {false, true}, {false, false}} {
+			prog, err := c.compile(src, m.typed, m.opt)
+			if err != nil {
+				c.rep.hist("negated-membership program rejected at compile time")
+				continue
+			}
+			r, pan := c13safeRun(prog, c.env)
+			if pan != nil {
+				r.err = fmt.Errorf("vm.Run panicked: %v", pan)
+			}
+			if r.err == nil {
+				c.rep.hist("run-time program did not fail")
+				continue
+			}
+			k := c13case{Stream: "run", Fault: "failing membership test under a prefix negation", Src: src, Typed: m.typed, Opt: m.opt, Line: p.line, Col: p.col, Hint: ""}
+			c.rep.hist("fault run: negated membership")
+			c.judge(k, r.err)
+			c.countDistinct(k)
+		}
+	}
+}
+
 func (c *c13ctx) runFaults(n int) {
 	// programs kept to be run AGAIN after all the later compilations (an application compiles its rule set first and
 	// evaluates later): the position a program reports does not depend on what was compiled after it
@@ -1742,6 +1775,7 @@ func runC13() {
 	c.syntaxFaults(nSyn)
 	c.runFaults(nRun)
 	c.nestedEvalFaults()
+	c.negatedInFaults()
 	c.snippets(nSnip)
 
 	rep.Distinct = len(c.distinct)
